@@ -138,7 +138,27 @@ func init() {
 	register(&PropCheck{
 		ID:   "C10",
 		Dirs: []string{"z80"},
-		Jobs: func(tier string, seed int64) []Job { return stepJobs(allEncodings(), "VC10") },
+		Jobs: func(tier string, seed int64) []Job {
+			jobs := stepJobs(allEncodings(), "VC10")
+			for kind := 0; kind <= 1; kind++ {
+				for _, im := range []int{0, 1, 2, 7} {
+					for n := 0; n <= 2; n++ {
+						if kind == 0 && im != 1 {
+							continue
+						}
+						jobs = append(jobs, Job{Dir: "z80", Harness: "VC10Req", Params: []int{kind, im, n}, Label: fmt.Sprintf("VC10Req/k%d/im%d/n%d", kind, im, n)})
+					}
+				}
+			}
+			for mode := 0; mode <= 2; mode++ {
+				encs := allEncodings()
+				if tier != "thorough" {
+					encs = append(reprEncs(), encsOf("ctl", "ir")...)
+				}
+				jobs = append(jobs, stepJobs(encs, "VC10Rebuild", mode)...)
+			}
+			return jobs
+		},
 		Post: func(c *CheckCtx) {
 			// isolation: no path of Step writes a package-level variable
 			w := map[string]bool{}
@@ -204,6 +224,10 @@ func init() {
 			jobs = append(jobs, stepJobs(allEncodings(), "VC06Handler")...)
 			// one-step refinement of the flip-flops for every instruction (EI, DI, RETN, RETI, all others)
 			jobs = append(jobs, stepJobs(allEncodings(), "VStep")...)
+			// histories of depth 2: any instruction, then a request at the boundary after it
+			for kind := 0; kind <= 1; kind++ {
+				jobs = append(jobs, stepJobs(allEncodings(), "VC06After", kind)...)
+			}
 			mk("VC06ScenarioEI", "s")
 			mk("VC06ScenarioNested", "s")
 			return jobs
